@@ -34,6 +34,13 @@ PARTIAL = [
                 "threshold, finding D13). The hypotheses on the basis are proved for the normalised Pauli basis (pauli_orthoN, pauli_hermB). "
                 "Basis completeness is no longer a hypothesis (derived from orthonormality + Hermiticity + count d^2; the harness re-checks "
                 "these three numerically for every system it uses)"},
+    {"theorem": "clause C04.4 (argument never modified)", "missing": "no theorem with content (mprocess_eq_var_argument_model_trivial is rfl "
+     "on identity definitions): established by before/after snapshots of every call site in the correspondence and the oracle only"},
+    {"theorem": "state_var_eq_obj_F, povm_var_eq_obj_F, mprocess_var_eq_obj_F", "missing": "definitional in the model (projEqVarF := projEq); "
+     "agreement of the separate _with_var(False) code sites is established by correspondence and oracle (Gate's flat-index routine is "
+     "modelled separately and gate_var_eq_obj_F has content)"},
+    {"theorem": "blocks_nearest_partial", "missing": "stated for families of per-block projIneqCore results; not connected by a theorem to the "
+     "executed Povm.projIneq / MProcess.projIneq (sequencing of the per-block Except results via Vector.mapM is not characterised)"},
 ]
 TYPES = ("State", "Povm", "Gate", "MProcess")
 CLS = {"State": State, "Povm": Povm, "Gate": Gate, "MProcess": MProcess}
